@@ -7,7 +7,7 @@
           5 records (content, order)   6 session reference -> record map
           7 notifications   8 record sizes (BER length)   9 record counter *)
 From Coq Require Import List ZArith Bool.
-From Verif Require Import Common.Outcome Common.Bytes Charging.Servers Charging.Chf Charging.HistoryProofs Charging.RecordBer.
+From Verif Require Import Common.Outcome Common.Bytes Charging.Servers Charging.Chf Charging.HistoryProofs Charging.OverdraftHistory Charging.RecordBer.
 Import ListNotations.
 Open Scope Z_scope.
 
@@ -113,6 +113,15 @@ Fixpoint run_steps (id k : Z) (w : world) (steps : list (op * obs)) : list (Z * 
 (* how many of the cases satisfy the hypotheses of C01_history (and how many there are) *)
 Definition in_domain (cs : list hcase) : Z * Z :=
   (Z.of_nat (length (filter (fun c => history_okb rsize usize (mkWorld (hc_db c) [] (hc_lrsn c) [] []) (map fst (hc_steps c))) cs)),
+   Z.of_nat (length cs)).
+
+(* ... and of C06_history: balances start non-negative, history_ok, and the consumer stays within the
+   grants of the model's answers (which the correspondence compares with the real answers) *)
+Definition in_domain_c06 (cs : list hcase) : Z * Z :=
+  (Z.of_nat (length (filter (fun c =>
+     let w := mkWorld (hc_db c) [] (hc_lrsn c) [] [] in
+     nonnegb (hc_db c) && history_okb rsize usize w (map fst (hc_steps c)) &&
+     history_compliantb rsize usize (fun _ _ => 0) w (map fst (hc_steps c))) cs)),
    Z.of_nat (length cs)).
 
 Definition run_hist (cs : list hcase) : list (Z * Z * Z) :=
